@@ -313,6 +313,7 @@ func (cp *MultihashPrimary) flushBlock(key []byte, value []byte) (types.Work, er
 			return 0, fmt.Errorf("cannot open new primary file %s: %w", primaryPath, err)
 		}
 		if err = cp.writer.Flush(); err != nil {
+			file.Close()
 			return 0, fmt.Errorf("cannot write to primary file %s: %w", cp.file.Name(), err)
 		}
 
